@@ -49,7 +49,7 @@ def tree():
     def tag(ch):
         return st.builds(
             lambda n, ws, k: {"k": "tag", "name": n, "ws": ws, "attrs": [], "kids": k},
-            st.sampled_from(["div", "span", "p", "b", "input", "img", "br", "link", "x-custom", "script", "head", "html"]),
+            st.sampled_from(["div", "span", "p", "b", "input", "img", "br", "link", "x-custom", "script", "head", "html"] + gen.SPECIAL_NAMES),
             st.booleans(),
             st.lists(ch, max_size=4),
         )
